@@ -2,7 +2,7 @@
 """Run every check against every kept seeded change (/verif/seeded/<id>/patch.diff), on a scratch
 copy of the current /repo sources (never on /repo itself), and print which rules report it.
 
-  selftest/seeded.py [ids...]      exit 1 if a seed listed with "expected_rules" in its meta.json is missed
+  selftest/seeded.py [ids...]      exit 1 if a seed is missed, is reported only by checks of other properties, or an expected rule no longer fires
 Writes selftest/seeded_summary.json.  Not part of any verdict.
 """
 import json, os, shutil, subprocess, sys, re
@@ -50,17 +50,23 @@ def main():
             run_one((props[0], base))
             with ThreadPoolExecutor(max_workers=8) as ex:
                 results = list(ex.map(run_one, [(p, base) for p in props]))
-            rules = sorted(set(r for _, _, out in results for r in re.findall(r"rule (C\d+\.[A-Za-z0-9]+) ", out)))
+            rules = sorted(set(r for _, _, out in results for r in re.findall(r"rule (C\d+\.[A-Za-z0-9.]+) ", out)))
             broken = sorted(p for p, rc, _ in results if rc == 2)
             want = meta.get("expected_rules", [])
             missed = [w for w in want if w not in rules]
-            own = meta.get("property")
-            status = "caught" if rules else "MISSED"
+            own = re.match(r"C\d+", sid).group(0)
+            own_rc = [rc for p_, rc, _ in results if p_ == own]
+            own_hit = bool(own_rc) and own_rc[0] == 1
+            status = ("caught by its own check" if own_hit else "caught by other checks only") if rules else "MISSED"
+            if rules and not own_hit:
+                bad += 1
             if missed:
                 status = "REGRESSION (expected %s)" % missed
                 bad += 1
-            print("%-6s (%s) %-10s %s%s" % (sid, own, status, rules, "  analysis-broken: %s" % broken if broken else ""))
-            summary[sid] = {"property": own, "rules": rules, "analysis_broken": broken, "expected_rules": want}
+            if not rules:
+                bad += 1
+            print("%-6s (%s) %-28s %s%s" % (sid, own, status, rules, "  analysis-broken: %s" % broken if broken else ""))
+            summary[sid] = {"property": own, "own_check_reports": own_hit, "rules": rules, "analysis_broken": broken, "expected_rules": want}
         finally:
             shutil.rmtree(base, ignore_errors=True)
     json.dump(summary, open(os.path.join(HERE, "seeded_summary.json"), "w"), indent=1)
